@@ -5,7 +5,7 @@ EXTENDS StreamAsgi, Json, IOUtils, TLC, TLCExt
 Traces == JsonDeserialize(IOEnv.TRACE_FILE)
 NTraces == Len(Traces)
 VARIABLES tid, l
-tvars == <<c, now, yielded, delivered, pingsSent, finalSent, closedCount, closedAt, returned, retAt, retExc, discSeen, begun, tid, l>>
+tvars == <<c, now, yielded, delivered, pingsSent, finalSent, closedCount, closedAt, returned, retAt, retExc, discSeen, begun, discAt, released, tid, l>>
 ASSUME \A i \in 1..NTraces : TLCSet(100 + i, 0)
 T == Traces[tid]
 Ev == T.events[l]
@@ -21,6 +21,7 @@ TraceNext == \/ Step("begin", Begin(Ev.t))
              \/ Step("disc", Disc(Ev.t))
              \/ Step("final", Final(Ev.t))
              \/ Step("closed", Closed(Ev.t))
+             \/ Step("release", Release(Ev.t))
              \/ Step("return", Return(Ev.t, Ev.x))
              \/ Step("settled", Settled(Ev.i))
 TraceSpec == TraceInit /\ [][TraceNext]_tvars
